@@ -714,6 +714,7 @@ func (fr *Frame) instr(b *ssa.BasicBlock, in ssa.Instruction, st *State) *Exit {
 		if !fr.nonNilByConstruction(x.Map) {
 			fr.safety(st, in, "nil-map-write", describe(x.Map, 0), fmt.Sprintf("(not (= %s 0))", mv))
 		}
+		fr.checkFrameMap(st, in, x.Map)
 		d, v := fe.mapHeaps(m)
 		k := fr.val(x.Key).S
 		curD := fe.hget(st, d)
@@ -1439,7 +1440,7 @@ func (fr *Frame) checkFrame(st *State, in ssa.Instruction, addr ssa.Value) {
 		what = "deref:" + describe(addr, 0)
 		base = fr.val(addr).S
 		for _, m := range fe.fc.Modifies {
-			if m == "*" {
+			if m == "*" || m == "cells" {
 				return
 			}
 		}
@@ -1453,14 +1454,56 @@ func (fr *Frame) checkFrame(st *State, in ssa.Instruction, addr ssa.Value) {
 		Formula: fe.freshCond(base), Src: "store to " + what + " stays inside the frame", Pos: fr.pos(in.Pos())}, nil)
 }
 
+// checkFrameMap: a map update inside a frame-restricted function must hit a map made by this activation
+// (or the frame must name "maps").
+func (fr *Frame) checkFrameMap(st *State, in ssa.Instruction, mp ssa.Value) {
+	fe := fr.fe
+	if fr.depth != 0 || !fe.frameRestricted() {
+		return
+	}
+	for _, m := range fe.fc.Modifies {
+		if m == "*" || m == "maps" {
+			return
+		}
+	}
+	if _, isMake := mp.(*ssa.MakeMap); isMake {
+		return
+	}
+	what := "map:" + describe(mp, 0)
+	fe.opCount["frame:"+what]++
+	label := "store:" + what
+	if n := fe.opCount["frame:"+what]; n > 1 {
+		label = fmt.Sprintf("%s#%d", label, n-1)
+	}
+	fe.addOblig(&Oblig{Kind: "frame", Props: fe.fc.Props, Label: label, Reach: st.alive,
+		Formula: fe.freshCond(fr.val(mp).S), Src: "update of " + what + " stays inside the frame", Pos: fr.pos(in.Pos())}, nil)
+}
+
 // frameCall: a call that may modify the heap inside a frame-restricted function.
 func (fr *Frame) frameCall(st *State, c ssa.CallInstruction, name string, objs []string) {
+	fr.frameCallMods(st, c, name, objs, nil)
+}
+
+// frameCallMods: calleeMods (when known) are the callee's general frame patterns; a callee whose frame is contained in
+// the caller's frame needs no obligation.
+func (fr *Frame) frameCallMods(st *State, c ssa.CallInstruction, name string, objs []string, calleeMods []string) {
 	fe := fr.fe
 	if fr.depth != 0 || !fe.frameRestricted() {
 		return
 	}
 	for _, m := range fe.fc.Modifies {
 		if m == "*" {
+			return
+		}
+	}
+	if len(calleeMods) > 0 {
+		sub := true
+		for _, cm := range calleeMods {
+			if !contains(fe.fc.Modifies, cm) {
+				sub = false
+			}
+		}
+		if sub {
 			return
 		}
 	}
